@@ -86,6 +86,9 @@ def random_env_op(rng, n, images=("img:1", "img:2", "img:3"), allow_cmds=True, n
         # a manifest re-applied with a name on the pod template (defaulting clears it again)
         return edit("ExtendedDaemonSet", ns, name, "tmplname:" + rng.choice(["agent", "agent", ""]))
     if r < 0.22:
+        if rng.random() < 0.2:
+            # a change of the pod template's annotations and nothing else (a new config checksum): a new template
+            return edit("ExtendedDaemonSet", ns, name, "tmplannot:checksum/config=" + rng.choice(["a", "b", "c"]))
         return edit("ExtendedDaemonSet", ns, name, "image:" + rng.choice(images))
     if r < 0.32:
         k = rng.choice([P.A_RU_PAUSED, P.A_FROZEN])
